@@ -7,14 +7,14 @@ from .common import TRUSTED, Ctx
 def check(rep):
     ctx = Ctx(rep)
     ER.rule_hash_descriptor(ctx)
-    ER.rule_position_slice(ctx, rid="C12.POSITION-FROM-KEY")
+    ER.rule_position_slice(ctx, rid="C12.POSITION-FROM-KEY", parts=("arg", "primitive"))
     PR.rule_compiles(ctx, rid="C12.SHAPE-COMPILES", strict=False)
     PR.rule_key(ctx)
     PR.rule_key_order_independent(ctx, rid="C12.ALPHABETICAL")
     PR.rule_renderers(ctx, rid="C12.SALT-EXACT", kinds=("str",))
     ER.rule_call_forwards(ctx, rid="C12.CALL-FORWARDS")
     ER.rule_installed_function(ctx, rid="C12.INSTALLED-FUNCTION", strict=False, facets=("installed",))
-    ER.rule_value_keyed_caches(ctx, rid="C12.NO-VALUE-KEYED-CACHE")
+    ER.rule_value_keyed_caches(ctx, rid="C12.NO-VALUE-KEYED-CACHE", modules={"binning/binning.py", "experiment_evaluator.py"})
     rep.assume("MD5 itself (hashlib) is trusted")
     return ("Abstract evaluation of the source to a canonical scheme descriptor compared with the published one: hash = md5, "
             "encoding utf-8 of the whole key, first 32 bits of the digest, divisor 2**32 (equivalent idioms recognised); key = "
